@@ -50,6 +50,53 @@ def extra_items():
     return fam
 
 
+_special_cache = {}
+
+
+def Class_fallible(m):
+    return m["ret"] in ("res_self", "res_unit", "res_prim")
+
+
+def special_items(prof):
+    """methods carrying special-method markers (constructor, getter, iterator, comparison, ...) that Special.tla ACCEPTS for
+    this backend's flags: accepted modules contain them as much as plain methods, and backends render them very differently"""
+    import extra
+    if "cases" not in _special_cache:
+        r = lib.tlc("special", "MC_Special", "special.cfg", workers=2, coverage=False, timeout=900)
+        lib.tlc_expect_ok(r, "Special: case emission")
+        _special_cache["cases"] = r.printed["CASE"]
+        _special_cache["tlc"] = r
+    sup = set(prof["supports"])
+    flags = {k: (k in sup) for k in ("constructors", "fallible_constructors", "static_accessors")}
+    rel = {"constructor": ("constructors", "fallible_constructors"), "named_constructor": ("constructors", "fallible_constructors"),
+           "getter": ("static_accessors",), "setter": ("static_accessors",)}
+    # the property quantifies "within each backend's declared feature support": a marker is only used where the backend
+    # declares the feature behind it
+    feature_of = {"constructor": "constructors", "named_constructor": "named_constructors", "getter": "accessors", "setter": "accessors",
+                  "stringifier": "stringifiers", "comparison": "comparators", "iterator": "iterators", "iterable": "iterables",
+                  "indexer": "indexing", "add": "arithmetic", "add_assign": "arithmetic"}
+    out, seen = [], set()
+    for n, c in enumerate(_special_cache["cases"]):
+        if c["errs"]:
+            continue
+        m = c["m"]
+        if feature_of[m["mk"]] not in sup:
+            continue
+        if Class_fallible(m) and m["mk"] in ("constructor", "named_constructor") and "fallible_constructors" not in sup:
+            continue
+        # the emitted flag vector must agree with the backend on the flags that matter for this marker
+        if any(c["f"][k] != flags[k] for k in rel.get(m["mk"], ())):
+            continue
+        key = json.dumps(m, sort_keys=True)
+        if key in seen:
+            continue
+        seen.add(key)
+        item, ctx = extra.render_special(n, m)
+        shape = "special %s on %s: (%s%s) -> %s" % (m["mk"], m["tk"], m["self"], "".join(", " + p for p in m["params"]), m["ret"])
+        out.append((200000 + n, item, ctx, shape))
+    return out
+
+
 def module_of(items):
     return ("#[diplomat::bridge]\nmod ffi {\n    use diplomat_runtime::{DiplomatOption, DiplomatSlice, DiplomatStrSlice, DiplomatStr16Slice, "
             "DiplomatUtf8StrSlice, DiplomatWrite, DiplomatStr, DiplomatStr16};\n" + render.PRELUDE + EXTRA_PRELUDE + "\n".join(items) + "}\n")
@@ -132,6 +179,7 @@ def run(rep, tier):
                 items, ctx = render.gate_item(n, c["pos"], c["ty"])
                 cand.append((n, items, ctx, "%s %s" % (c["pos"], render.ty(c["ty"]))))
         cand += extra
+        cand += special_items(prof)
         live = lower_ok_subset(cand, prof, wd)
         if not live:
             raise lib.ToolError("no program lowers for backend %s" % b)
